@@ -89,15 +89,22 @@ Example C16_diff_example :
 Proof. reflexivity. Qed.
 
 (* ---- (b) invocation transport, for all parameter and argument lists over the
-        universe, for every value codec that reads back what it wrote ---- *)
+        universe, for every value codec that reads back what it wrote.
+        [rp] = GobEncode tests for nil pointers, [rr] = Session.run tests for a nil
+        *Result: the two switches goparams reads from the source ---- *)
+
+Theorem C16_gen_encode_rejects_nil_pointer : encode_rejects_nil_pointer = true.
+Proof. reflexivity. Qed.
+Theorem C16_gen_run_rejects_nil_result : run_rejects_nil_result = true.
+Proof. reflexivity. Qed.
 
 Theorem C16_transport_shape :
   forall (V B : Type) (genc : ctype -> V -> B) (gdec : ctype -> B -> option V),
   (forall c v, gdec c (genc c v) = Some v) ->
-  forall known compiled ps (args : list (arg V)),
+  forall (rp rr : bool) known compiled ps (args : list (arg V)),
   typecheck V ps args = true -> forallb2 (ships V) ps args = true ->
   results_in V known args = true -> results_in V compiled args = true ->
-  transport V B genc gdec known compiled ps args = OArrived args.
+  transport V B genc gdec rp rr known compiled ps args = OArrived args.
 Proof. exact transport_shape. Qed.
 Print Assumptions C16_transport_shape.
 
@@ -105,38 +112,74 @@ Print Assumptions C16_transport_shape.
 Theorem C16_target_accepts :
   forall (V B : Type) (genc : ctype -> V -> B) (gdec : ctype -> B -> option V),
   (forall c v, gdec c (genc c v) = Some v) ->
-  forall known p (a a' : arg V),
+  forall (rp : bool) known p (a a' : arg V),
   typecheck1 V p a = true -> ships V p a = true -> subst_arg V known a = Some a' ->
-  exists w, encode_arg V B genc p a' = E1Ok w /\ decode_arg V B gdec p w = Some a'.
+  exists w, encode_arg V B genc rp p a' = E1Ok w /\ decode_arg V B gdec p w = Some a'.
 Proof. exact target_accepts. Qed.
 
 Theorem C16_codec_roundtrip :
   forall (V B : Type) (genc : ctype -> V -> B) (gdec : ctype -> B -> option V),
   (forall c v, gdec c (genc c v) = Some v) ->
-  forall ps (args : list (arg V)),
+  forall (rp : bool) ps (args : list (arg V)),
   typecheck V ps args = true -> forallb2 (ships V) ps args = true -> no_results V args = true ->
-  codec V B genc gdec ps args = COk args.
+  codec V B genc gdec rp ps args = COk args.
 Proof. exact codec_roundtrip. Qed.
 Print Assumptions C16_codec_roundtrip.
 
-(* arguments that cannot be encoded: Run never goes on to ask for a machine ... *)
+(* arguments that cannot be encoded (chan, func, unregistered types in interfaces,
+   typed nil pointers): Run never goes on to ask for a machine ... *)
 Theorem C16_unencodable_never_offered :
-  forall (V B : Type) (genc : ctype -> V -> B) known ps (args : list (arg V)),
+  forall (V B : Type) (genc : ctype -> V -> B) (rp : bool) known ps (args : list (arg V)),
   existsb2 (unencodable V) ps args = true ->
-  forall ws, run_prefix V B genc known ps args <> RunOffer ws.
+  forall ws, run_prefix V B genc rp known ps args <> RunOffer ws.
 Proof. exact unencodable_never_offered. Qed.
-(* ... and, nil arguments aside, the task ends in TaskErr and Run returns *)
+(* ... and with the current GobEncode the task ends in TaskErr and Run returns *)
 Theorem C16_unencodable_is_fatal :
   forall (V B : Type) (genc : ctype -> V -> B) (gdec : ctype -> B -> option V),
   (forall c v, gdec c (genc c v) = Some v) ->
-  forall known compiled ps (args : list (arg V)),
+  forall (rr : bool) known compiled ps (args : list (arg V)),
   typecheck V ps args = true ->
   forallb2 (fun p a => ships V p a || unencodable V p a) ps args = true ->
   existsb2 (unencodable V) ps args = true ->
+  has_nil_result V args = false ->
   results_in V known args = true ->
-  transport V B genc gdec known compiled ps args = ORunErr.
-Proof. exact unencodable_is_fatal. Qed.
+  transport V B genc gdec true rr known compiled ps args = ORunErr.
+Proof. intros V B genc gdec H rr known compiled. exact (unencodable_is_fatal V B genc gdec H true rr known compiled eq_refl). Qed.
 Print Assumptions C16_unencodable_is_fatal.
+
+(* current code: a typed nil pointer argument is never offered to a machine and
+   puts the task in TaskErr *)
+Theorem C16_nil_pointer_is_fatal :
+  forall (V B : Type) (genc : ctype -> V -> B) (gdec : ctype -> B -> option V),
+  (forall c v, gdec c (genc c v) = Some v) ->
+  forall (rr : bool) known compiled ps (args : list (arg V)),
+  typecheck V ps args = true ->
+  forallb2 (fun p a => ships V p a || unencodable V p a) ps args = true ->
+  existsb2 (typed_nil_pointer V) ps args = true ->
+  has_nil_result V args = false ->
+  results_in V known args = true ->
+  transport V B genc gdec true rr known compiled ps args = ORunErr /\
+  forall ws, run_prefix V B genc true known ps args <> RunOffer ws.
+Proof. intros V B genc gdec H rr known compiled. exact (nil_pointer_is_fatal V B genc gdec H true rr known compiled eq_refl). Qed.
+Print Assumptions C16_nil_pointer_is_fatal.
+
+(* current code: a nil *Result argument makes Session.run return an error before
+   the invocation is made (nothing is typechecked, compiled, serialised or sent) *)
+Theorem C16_nil_result_rejected :
+  forall (V B : Type) (genc : ctype -> V -> B) (gdec : ctype -> B -> option V)
+         (rp : bool) known compiled ps (args : list (arg V)),
+  has_nil_result V args = true ->
+  transport V B genc gdec rp true known compiled ps args = OSessErr.
+Proof. intros V B genc gdec rp known compiled ps args. exact (nil_result_rejected V B genc gdec rp true known compiled ps args eq_refl). Qed.
+
+(* current code: no panic escapes Run, whatever the arguments *)
+Theorem C16_current_code_never_panics :
+  forall (V B : Type) (genc : ctype -> V -> B) (gdec : ctype -> B -> option V)
+         known compiled ps (args : list (arg V)),
+  results_in V known args = true ->
+  transport V B genc gdec true true known compiled ps args <> ORunPanic.
+Proof. intros V B genc gdec known compiled ps args. exact (current_code_never_panics V B genc gdec true true known compiled ps args eq_refl eq_refl). Qed.
+Print Assumptions C16_current_code_never_panics.
 
 (* every invocationRef in the shipped arguments has its invocation in the
    dependency set addInvocation records (user arguments never contain references),
@@ -161,33 +204,37 @@ Print Assumptions C16_fresh_ship_ok_upto4.
 
 Theorem C16_illtyped_rejected :
   forall (V B : Type) (genc : ctype -> V -> B) (gdec : ctype -> B -> option V)
-         known compiled ps (args : list (arg V)),
-  typecheck V ps args = false -> transport V B genc gdec known compiled ps args = OTypeErr.
+         (rp rr : bool) known compiled ps (args : list (arg V)),
+  typecheck V ps args = false ->
+  transport V B genc gdec rp rr known compiled ps args =
+  (if rr && has_nil_result V args then OSessErr else OTypeErr).
 Proof. exact illtyped_rejected. Qed.
 
-(* what must arrive but is not shipped is exactly: an untyped nil for a nil-able
-   non-interface parameter, or a typed nil pointer for a pointer-typed parameter,
-   or a nil *Result *)
+(* what must arrive but is not shipped is exactly an untyped nil for a nil-able
+   non-interface parameter *)
 Theorem C16_gap_is_nil : forall (V : Type) p (a : arg V),
   typecheck1 V p a = true -> must_arrive V p a = true -> ships V p a = false ->
-  (a = ANil /\ is_iface p = false /\ nilable_p p = true) \/
-  (exists c, a = ATNil c /\ is_pointer c = true /\ (is_iface p = false \/ c = CResult)).
+  a = ANil /\ is_iface p = false /\ nilable_p p = true.
 Proof. exact gap_is_nil. Qed.
 
-(* the faithful model refutes "nil values arrive" in these three ways (findings) *)
+(* the faithful model refutes "nil values arrive" for it, with or without the two
+   fixes (finding c16:untyped-nil-for-concrete-param:not-shipped) *)
 Theorem C16_nil_untyped_refuted :
-  forall (V B : Type) (genc : ctype -> V -> B) (gdec : ctype -> B -> option V),
+  forall (V B : Type) (genc : ctype -> V -> B) (gdec : ctype -> B -> option V) (rp rr : bool),
   exists ps (args : list (arg V)), typecheck V ps args = true /\ forallb2 (must_arrive V) ps args = true /\
-    transport V B genc gdec [] [] ps args = ORunErr.
+    transport V B genc gdec rp rr [] [] ps args = ORunErr.
 Proof. exact nil_untyped_refuted. Qed.
+
+(* witnesses for the code before the fixes cddaded and 61f39b4 (switch off): a
+   panic escapes Run *)
 Theorem C16_nil_pointer_refuted :
-  forall (V B : Type) (genc : ctype -> V -> B) (gdec : ctype -> B -> option V),
-  exists ps (args : list (arg V)), typecheck V ps args = true /\ forallb2 (must_arrive V) ps args = true /\
-    transport V B genc gdec [] [] ps args = ORunPanic.
+  forall (V B : Type) (genc : ctype -> V -> B) (gdec : ctype -> B -> option V) (rr : bool),
+  exists ps (args : list (arg V)), typecheck V ps args = true /\
+    transport V B genc gdec false rr [] [] ps args = ORunPanic.
 Proof. exact nil_pointer_refuted. Qed.
 Theorem C16_nil_result_refuted :
-  forall (V B : Type) (genc : ctype -> V -> B) (gdec : ctype -> B -> option V),
-  exists ps (args : list (arg V)), typecheck V ps args = true /\ forallb2 (must_arrive V) ps args = true /\
-    transport V B genc gdec [] [] ps args = ORunPanic.
+  forall (V B : Type) (genc : ctype -> V -> B) (gdec : ctype -> B -> option V) (rp : bool),
+  exists ps (args : list (arg V)), typecheck V ps args = true /\
+    transport V B genc gdec rp false [] [] ps args = ORunPanic.
 Proof. exact nil_result_refuted. Qed.
 Print Assumptions C16_nil_pointer_refuted.
